@@ -96,8 +96,9 @@ def outcome(sp, call):
         return [type(e).__name__, -1, None, str(e)]
 
 
-def invoke(sp, entry, obj, form):
-    aslist = [obj]
+def invoke(sp, entry, obj, form, aslist=None):
+    if aslist is None:
+        aslist = [obj]
     if form == 'none_in_list':
         aslist = [native('zz', 'unicode' if sp.encoding else 'bytes'), None]
     if entry == 'expect_single':
@@ -167,9 +168,13 @@ def run_row(r, ctx, stats):
                 if form in ('native_str', 'other_str', 'compiled_native', 'compiled_other'):
                     sp3 = new_sp(mode, stream, chunk, not ic)
                     sp3.script.insert(0, ('timeout',))
-                    prim = outcome(sp3, invoke(sp3, entry, obj, form))
+                    shared = [obj]            # one list object built once by the caller and used for both calls
+                    prim = outcome(sp3, invoke(sp3, entry, obj, form, shared))
                     sp3.ignorecase = ic
-                    got3 = outcome(sp3, invoke(sp3, entry, obj, form))
+                    got3 = outcome(sp3, invoke(sp3, entry, obj, form, shared))
+                    if len(shared) != 1 or shared[0] is not obj:
+                        ctx.fail('C20:the-caller\'s-pattern-list-was-modified', case, detail={'list_after_the_calls': repr(shared)[:200]},
+                                 signature={'form': form, 'mode': mode, 'entry': entry})
                     stats['evaluations'] += 1
                     if prim[0] not in ('TIMEOUT', 'timeout') or got3 != got:
                         ctx.fail('C20:same-meaning-after-ignorecase-was-toggled', case,
